@@ -232,4 +232,162 @@ theorem rotCheck_ok (hG : ValidGroup G) (S : State) (hS : StateOk G S) (Gv : Int
 
 end
 
+/-! ### lists over `range n` as finite sums and products -/
+
+open Finset in
+theorem prod_map_range {M : Type*} [CommMonoid M] (f : ℕ → M) (n : ℕ) :
+    ((List.range n).map f).prod = ∏ i ∈ Finset.range n, f i := by
+  induction n with
+  | zero => simp
+  | succ n ih => rw [List.prod_range_succ, Finset.prod_range_succ, ih]
+
+theorem sum_map_range (f : ℕ → ℤ) (n : ℕ) :
+    ((List.range n).map f).sum = ∑ i ∈ Finset.range n, f i := by
+  induction n with
+  | zero => simp
+  | succ n ih => rw [List.sum_range_succ, Finset.sum_range_succ, ih]
+
+theorem zip_map_range {α β} (f : ℕ → α) (l : List β) (d : β) (n : ℕ) (hl : l.length = n) :
+    ((List.range n).map f).zip l = (List.range n).map fun j => (f j, l.getD j d) := by
+  apply List.ext_getElem
+  · simp [hl]
+  · intro i h1 h2
+    have hi : i < n := by simpa using h2
+    have hil : i < l.length := by omega
+    simp [List.getElem?_eq_getElem hil]
+
+theorem list_eq_map_range {β} (l : List β) (d : β) (n : ℕ) (hl : l.length = n) :
+    l = (List.range n).map fun j => l.getD j d := by
+  apply List.ext_getElem
+  · simp [hl]
+  · intro i h1 h2
+    simp [List.getElem?_eq_getElem h1]
+
+theorem dotMod_range (hG : ValidGroup G) (f : ℕ → ℤ) (l : List ℤ) (n : ℕ) (hl : l.length = n) :
+    dotMod G.q ((List.range n).map f) l = (∑ j ∈ Finset.range n, f j * l.getD j 0) % G.q := by
+  rw [dotMod_eq G.q hG.q_pos, zip_map_range f l 0 n hl, List.map_map, sum_map_range]
+  rfl
+
+theorem gamma_eq (hG : ValidGroup G) (alpha beta : List ℤ) (k : ℕ) (hb : beta.length = alpha.length) :
+    gamma G.q alpha beta k = (∑ j ∈ Finset.range alpha.length,
+      alpha.getD (subMod alpha.length k j) 0 * beta.getD j 0) % G.q := by
+  unfold gamma
+  exact dotMod_range hG _ beta alpha.length hb
+
+/-! ### exponent arithmetic in the subgroup -/
+
+theorem zpow_congr_q (hG : ValidGroup G) (a : F G) (ha : a ^ G.q.natAbs = 1) {e1 e2 : ℤ}
+    (h : e1 % G.q = e2 % G.q) : a ^ e1 = a ^ e2 := by
+  have h0 := ne_zero_of_pow_eq_one (q_natAbs_ne_zero hG) ha
+  rw [← zpow_mod_q hG a ha h0 e1, ← zpow_mod_q hG a ha h0 e2, h]
+
+theorem prod_zpow_sum (a : F G) (ha : a ≠ 0) (f : ℕ → ℤ) (n : ℕ) :
+    ∏ i ∈ Finset.range n, a ^ f i = a ^ ∑ i ∈ Finset.range n, f i := by
+  induction n with
+  | zero => simp
+  | succ n ih => rw [Finset.prod_range_succ, Finset.sum_range_succ, zpow_add₀ ha, ih]
+
+/-- `a^{(Σ e_i) mod q} = Π a^{e_i}` -/
+theorem zpow_sum_mod (hG : ValidGroup G) (a : F G) (ha : a ^ G.q.natAbs = 1) (f : ℕ → ℤ) (n : ℕ) :
+    a ^ ((∑ i ∈ Finset.range n, f i) % G.q) = ∏ i ∈ Finset.range n, a ^ f i := by
+  have h0 := ne_zero_of_pow_eq_one (q_natAbs_ne_zero hG) ha
+  rw [zpow_mod_q hG a ha h0, prod_zpow_sum a h0]
+
+/-- the EXP-ZK response equation: `x^{λa+o} y^{λu+p} = (x^a y^u)^λ (x^o y^p)` -/
+theorem expzk_alg (x y : F G) (hx : x ≠ 0) (hy : y ≠ 0) (a u o pp lam : ℤ) :
+    x ^ (lam * a + o) * y ^ (lam * u + pp) = (x ^ a * y ^ u) ^ lam * (x ^ o * y ^ pp) := by
+  rw [zpow_add₀ hx, zpow_add₀ hy, mul_zpow, ← zpow_mul, ← zpow_mul, mul_comm a lam, mul_comm u lam]
+  ring
+
+/-- … with the reductions of the code (`x`, `y` of order dividing `q`) -/
+theorem expzk_mod (hG : ValidGroup G) (x y : F G) (hx : x ^ G.q.natAbs = 1) (hy : y ^ G.q.natAbs = 1)
+    (a u o pp lam : ℤ) :
+    x ^ ((lam * a % G.q + o) % G.q) * y ^ ((lam * u % G.q + pp) % G.q) =
+      (x ^ a * y ^ u) ^ lam * (x ^ o * y ^ pp) := by
+  have hx0 := ne_zero_of_pow_eq_one (q_natAbs_ne_zero hG) hx
+  have hy0 := ne_zero_of_pow_eq_one (q_natAbs_ne_zero hG) hy
+  rw [← expzk_alg x y hx0 hy0]
+  congr 1
+  · apply zpow_congr_q hG x hx
+    rw [Int.emod_emod_of_dvd _ (dvd_refl _), Int.emod_add_emod]
+  · apply zpow_congr_q hG y hy
+    rw [Int.emod_emod_of_dvd _ (dvd_refl _), Int.emod_add_emod]
+
+/-! ### rotation of the index range -/
+
+/-- `k ↦ k + r (mod n)`, the inverse of `subMod n r` -/
+def addMod (n r k : ℕ) : ℕ := if k + r < n then k + r else k + r - n
+
+theorem subMod_lt {n r k : ℕ} (hr : r < n) (hk : k < n) : subMod n r k < n := by
+  unfold subMod; split_ifs <;> omega
+
+theorem addMod_lt {n r k : ℕ} (hr : r < n) (hk : k < n) : addMod n r k < n := by
+  unfold addMod; split_ifs <;> omega
+
+theorem addMod_subMod {n r k : ℕ} (hr : r < n) (hk : k < n) : addMod n r (subMod n r k) = k := by
+  unfold addMod subMod; split_ifs <;> omega
+
+theorem subMod_addMod {n r k : ℕ} (hr : r < n) (hk : k < n) : subMod n r (addMod n r k) = k := by
+  unfold addMod subMod; split_ifs <;> omega
+
+/-- products over `range n` are invariant under the rotation `k ↦ k - r (mod n)` -/
+theorem prod_rot {M : Type*} [CommMonoid M] (n r : ℕ) (hr : r < n) (f : ℕ → M) :
+    ∏ k ∈ Finset.range n, f (subMod n r k) = ∏ j ∈ Finset.range n, f j := by
+  apply Finset.prod_nbij' (fun k => subMod n r k) (fun j => addMod n r j)
+  · intro k hk; exact Finset.mem_range.mpr (subMod_lt hr (Finset.mem_range.mp hk))
+  · intro j hj; exact Finset.mem_range.mpr (addMod_lt hr (Finset.mem_range.mp hj))
+  · intro k hk; exact addMod_subMod hr (Finset.mem_range.mp hk)
+  · intro j hj; exact subMod_addMod hr (Finset.mem_range.mp hj)
+  · intro k hk; rfl
+
+/-- the last equation of the rotation argument: `Π_j A_j X_j^{-α_j} = b^v` -/
+theorem final_alg (hG : ValidGroup G) (n r : ℕ) (hr : r < n) (x : ℕ → F G) (hx : ∀ j, j < n → x j ≠ 0)
+    (al s t : ℕ → ℤ) (b : F G) (hb : b ^ G.q.natAbs = 1) (A : ℕ → F G)
+    (hA : ∀ j, j < n → A j = (x (subMod n r j) * b ^ s j) ^ al (subMod n r j) * b ^ t j) :
+    ∏ j ∈ Finset.range n, ((x j ^ al j)⁻¹ * A j) =
+      b ^ ((∑ j ∈ Finset.range n, (al (subMod n r j) * s j % G.q + t j) % G.q) % G.q) := by
+  have hb0 := ne_zero_of_pow_eq_one (q_natAbs_ne_zero hG) hb
+  rw [zpow_sum_mod hG b hb, Finset.prod_mul_distrib]
+  have hA' : ∏ j ∈ Finset.range n, A j =
+      (∏ j ∈ Finset.range n, x (subMod n r j) ^ al (subMod n r j)) *
+        ∏ j ∈ Finset.range n, b ^ ((al (subMod n r j) * s j % G.q + t j) % G.q) := by
+    rw [← Finset.prod_mul_distrib]
+    apply Finset.prod_congr rfl
+    intro j hj
+    rw [hA j (Finset.mem_range.mp hj), mul_zpow, ← zpow_mul, mul_assoc]
+    congr 1
+    rw [zpow_mod_q hG b hb hb0, zpow_add₀ hb0, zpow_mod_q hG b hb hb0, mul_comm (s j)]
+  rw [hA', prod_rot n r hr (fun j => x j ^ al j), ← mul_assoc, ← Finset.prod_mul_distrib]
+  have : ∏ j ∈ Finset.range n, ((x j ^ al j)⁻¹ * x j ^ al j) = 1 := by
+    apply Finset.prod_eq_one
+    intro j hj
+    exact inv_mul_cancel₀ (zpow_ne_zero _ (hx j (Finset.mem_range.mp hj)))
+  rw [this, one_mul]
+
+/-! ### PUB-ROT-ZK -/
+
+/-- the simulated branches verify for every challenge -/
+theorem rot_sim_alg (hG : ValidGroup G) (g h Gv : F G) (hg : g ^ G.q.natAbs = 1) (hh : h ≠ 0)
+    (hGv : Gv ≠ 0) (gam lam t : ℤ) :
+    h ^ t = ((g ^ gam)⁻¹ * Gv) ^ lam * (g ^ (lam * gam % G.q) * h ^ t * (Gv ^ lam)⁻¹) := by
+  have hg0 := ne_zero_of_pow_eq_one (q_natAbs_ne_zero hG) hg
+  rw [zpow_mod_q hG g hg hg0, mul_zpow, inv_zpow, ← zpow_mul, mul_comm gam lam]
+  have h1 := zpow_ne_zero (lam * gam) hg0
+  have h2 := zpow_ne_zero lam hGv
+  field_simp
+
+/-- the real branch: `G = g^{γ_r} h^{Σ u_j β_j}`, `t_r = u + λ_r Σ u_j β_j` -/
+theorem rot_real_alg (hG : ValidGroup G) (g h : F G) (hg : g ^ G.q.natAbs = 1) (hh : h ^ G.q.natAbs = 1)
+    (gam sig sig' u lamr : ℤ) (hsig : sig' % G.q = sig % G.q) (Gv : F G)
+    (hGv : Gv = g ^ gam * h ^ sig) :
+    h ^ ((u + sig' * lamr % G.q) % G.q) = ((g ^ gam)⁻¹ * Gv) ^ lamr * h ^ u := by
+  have hg0 := ne_zero_of_pow_eq_one (q_natAbs_ne_zero hG) hg
+  have hh0 := ne_zero_of_pow_eq_one (q_natAbs_ne_zero hG) hh
+  have e : (g ^ gam)⁻¹ * Gv = h ^ sig := by
+    rw [hGv, ← mul_assoc, inv_mul_cancel₀ (zpow_ne_zero _ hg0), one_mul]
+  rw [e, ← zpow_mul, ← zpow_add₀ hh0]
+  apply zpow_congr_q hG h hh
+  rw [Int.emod_emod_of_dvd _ (dvd_refl _), Int.add_emod, Int.emod_emod_of_dvd _ (dvd_refl _),
+    Int.mul_emod, hsig, ← Int.mul_emod, ← Int.add_emod, add_comm]
+
 end Tmcg.Args
